@@ -197,6 +197,8 @@ def run(ctx):
     run_apertures(ctx)
     from .profnorm import run_profnorm
     run_profnorm(ctx)
+    from .callseq import run_callseq
+    run_callseq(ctx)
     ctx.assumptions += ['bit-identity of repeated computations on this platform (measured: fresh vs fresh digests are equal)']
 
 
